@@ -65,6 +65,7 @@ def run(ctx):
     rule_e(ctx)
     rule_f(ctx)
     rule_g(ctx)
+    rule_h(ctx)
 
 
 def rule_a(ctx):
@@ -254,6 +255,62 @@ def rule_e(ctx):
 def rule_f(ctx):
     check_order(ctx, "C40.f/snapshot-before-commit", WCH + "snapshot_working_copy", LWC + "snapshot",
                 "re:^jj_cli::cli_util::CommandHelper::maybe_commit_transaction$")
+
+
+def rule_h(ctx):
+    """the permission flag and the snapshot gate are the same predicate: WorkspaceCommandHelper::new(.., may_snapshot) gets
+    exactly CommandHelper::is_working_copy_writable() (possibly narrowed by `&& ..`), the predicate that decides in
+    workspace_helper_with_stats whether the working copy is snapshotted"""
+    F = ctx.F
+    from jjv.lib import alts
+    GATE = CU + "CommandHelper::is_working_copy_writable"
+    sites = [c for c in F.all_calls_to(WCH + "new", crates=("jj_cli",)) if not c.cleanup]
+    if not ctx.anchor("C40.h", "WorkspaceCommandHelper::new call sites", sites, 1):
+        return
+    tabled = {
+        CU + "CommandHelper::for_workable_repo":
+            "helper for a workspace the caller has just created or loaded itself (init, clone, workspace add, update-stale); "
+            "the repo is not loaded at --at-op, only --ignore-working-copy applies",
+        CU + "CommandHelper::recover_stale_working_copy_impl":
+            "stale recovery at the working copy's own operation: snapshots right away (C40.c counts it as the snapshot)",
+    }
+    for c in sites:
+        ctx.fn_seen(c.body.id)
+        sl = F.slicer(c.body.id)
+        t = sl.call_arg(c, 4)
+        if c.body.root in tabled:
+            txt = show(t)
+            okx = "ignore_working_copy" in txt and "Not(" in txt
+            ctx.ob("C40.h/update-permission-equals-snapshot-gate", c.body.root, okx, "tabled: " + tabled[c.body.root] if okx else
+                   f"tabled site no longer passes !ignore_working_copy: {txt[:80]}", where=c.where())
+            continue
+        bad = []
+        for a in alts(t):
+            a = strip(a)
+            if a == ("const", False):
+                continue
+            names = {x[1] for x in term_calls(a)}
+            top = a[1] if isinstance(a, tuple) and a[0] == "call" else None
+            if top == GATE:
+                continue
+            # `gate && more`: the alternative is only defined on the gate's true edge
+            if GATE in names and isinstance(a, tuple) and a[0] in ("un", "bin", "call"):
+                gate_calls = [g for g in c.body.calls_to(GATE)]
+                tr = set()
+                for g in gate_calls:
+                    tr |= set(bool_edges(F, c.body, g)[0])
+                if tr and c.body.set_dominated(c.bb, tr | {0}) and False:
+                    continue
+            bad.append(show(a)[:100])
+        ctx.ob("C40.h/update-permission-equals-snapshot-gate", c.body.root, not bad,
+               "may_snapshot_working_copy := is_working_copy_writable(), the predicate of the snapshot gate" if not bad else
+               f"the helper may update the working copy under a condition ({bad[0]}) that is not the one deciding whether it was "
+               f"snapshotted (is_working_copy_writable): a command can then check out over unsnapshotted edits", where=c.where())
+    # and the gate in workspace_helper_with_stats is that predicate (C40.c checks the dominance, here the identity)
+    for b in bodies_with(F, CU + "CommandHelper::workspace_helper_with_stats", WCH + "snapshot_impl"):
+        names = {x.res or x.decl or "" for x in b.calls if not x.cleanup}
+        ctx.ob("C40.h/snapshot-gate-predicate", b.root, GATE in names, "gate = is_working_copy_writable()" if GATE in names else
+               "workspace_helper_with_stats no longer consults is_working_copy_writable()")
 
 
 def rule_g(ctx):
